@@ -34,6 +34,20 @@ func VerifC42keys() {
 	p := prefixKeyForHeight(h1)
 	in := v.And(bytes.Compare(k2, p) >= 0, bytes.Compare(k2, endKey(p)) < 0)
 	v.Assert(in == (h2 == h1), "height-range-exact")
+	// the per-sender and per-recipient keys order like (height, index) too, and the range scanned
+	// for an address holds them whatever the height
+	r1.Result.Signer, r2.Result.Signer = c42addrs[0], c42addrs[0]
+	r1.Result.Recipient, r2.Result.Recipient = c42addrs[1], c42addrs[1]
+	s1, s2 := keyForSigner(r1), keyForSigner(r2)
+	v.Assert(less == (bytes.Compare(s1, s2) < 0), "signer-key-order")
+	q1, q2 := keyForRecipient(r1), keyForRecipient(r2)
+	v.Assert(less == (bytes.Compare(q1, q2) < 0), "recipient-key-order")
+	sp := prefixKeyForSigner(c42addrs[0])
+	v.Assert(v.And(bytes.Compare(s2, sp) >= 0, bytes.Compare(s2, endKey(sp)) < 0), "signer-range-holds-every-height")
+	rp := prefixKeyForRecipient(c42addrs[1])
+	v.Assert(v.And(bytes.Compare(q2, rp) >= 0, bytes.Compare(q2, endKey(rp)) < 0), "recipient-range-holds-every-height")
+	op := prefixKeyForSigner(c42addrs[1])
+	v.Assert(!v.And(bytes.Compare(s2, op) >= 0, bytes.Compare(s2, endKey(op)) < 0), "signer-range-excludes-other-address")
 }
 
 var c42heights = []int64{5, 12, 7}
@@ -169,7 +183,10 @@ func VerifC42search() {
 	case 3: // by signer and height
 		a := c42addrs[v.Choice(2)]
 		h := c42heights[v.Choice(3)]
-		want := c42sorted(txs, func(x c42tx) bool { return v.And(bytes.Equal(x.res.Result.Signer, a), x.res.Height == h) })
+		// a sender query with a height returns the sender's transactions FROM that height on: that is
+		// what the repository's own RPC test pins ("query with first tx block height returns both
+		// txs"), and the property speaks only about plain sender / recipient / height searches
+		want := c42sorted(txs, func(x c42tx) bool { return v.And(bytes.Equal(x.res.Result.Signer, a), x.res.Height >= h) })
 		page := c42page()
 		got, total, err := t.signerQuery(query.Condition{CompositeKey: TxSignerKey, Op: query.OpEqual, Operand: a.String()},
 			query.Condition{CompositeKey: TxHeightKey, Op: query.OpEqual, Operand: h}, page)
